@@ -13,7 +13,7 @@ RULE = (
     "coefficients of F2, FL, F3, g1: reg+sing compared pointwise on random z with the textbook expressions and Mellin moments at "
     "random real N (which fixes the delta term) - nf 3..6. Distinct = (fact, class, order, nf); non-trivial = a non-zero expected value was compared."
 )
-ASSUMPTIONS = ["published constants: Larin-Vermaseren GLS/Bjorken series; parametrised NNLO/N3LO coefficient functions judged at parametrisation accuracy (2e-3 / 3e-4 of sum|pieces|)",
+ASSUMPTIONS = ["published constants: Larin-Vermaseren GLS/Bjorken series; parametrised NNLO/N3LO coefficient functions judged at 5x the residual of the intact parametrisations (1e-4 / 2e-5 of sum|pieces|, 7e-4 for the valence piece)",
                "a typo below parametrisation accuracy in a sub-dominant constant is invisible to sum rules"]  # fmt: skip
 CF, TR, Z2, Z3 = 4.0 / 3.0, 0.5, np.pi**2 / 6.0, 1.2020569031595942
 
@@ -138,7 +138,12 @@ def run_case(case):
             if sample is None:
                 sample = dict(target=label, nf=nf, fact=what, observed=float(obs), expected=float(exp))
 
-    PAR = {0: 1e-12, 1: 1e-10, 2: 2e-3, 3: 3e-4}
+    # parametrised orders: 5x the residual the intact parametrisations exhibit against the exact series (measured over nf 3..6:
+    # NNLO <= 9.2e-3 on sum|pieces| 458, N3LO <= 7.3e-2 on 1.8e4, N3LO valence 3.6e-2 on 271); a seeded swap of the even/odd NNLO
+    # function moves the Bjorken moment by 0.12
+    PAR = {0: 1e-12, 1: 1e-10, 2: 1e-4, 3: 2e-5}
+    if case["cls"] == "Valence":
+        PAR[3] = 7e-4
     if fact in ("adler", "gls", "bjorken"):
         series = {0: 1.0, 1: -4.0, 2: 16.0 * (-55.0 / 12.0 + nf / 3.0), 3: 64.0 * (-41.4399 + 7.6073 * nf - 0.17747 * nf * nf)}
         if fact == "adler":
